@@ -1,286 +1,1 @@
-// Code generated by `c21 gen-decoders`; DO NOT EDIT.
-// Table of the generated interface decoders (DecodeXxx). The harness compares its key set with the
-// interfaces the translator finds in the current source.
-
-package main
-
-import (
-	"github.com/gotd/td/bin"
-	"github.com/gotd/td/mt"
-	"github.com/gotd/td/tg"
-	"github.com/gotd/td/tg/e2e"
-)
-
-func wrap[T bin.Object](f func(*bin.Buffer) (T, error)) func(*bin.Buffer) (bin.Object, error) {
-	return func(b *bin.Buffer) (bin.Object, error) {
-		v, err := f(b)
-		if err != nil {
-			return nil, err
-		}
-		return v, nil
-	}
-}
-
-var ifaceDecoders = map[string]func(*bin.Buffer) (bin.Object, error){
-	"mt.BadMsgNotification":                   wrap(mt.DecodeBadMsgNotification),
-	"mt.DestroySessionRes":                    wrap(mt.DecodeDestroySessionRes),
-	"mt.MsgDetailedInfo":                      wrap(mt.DecodeMsgDetailedInfo),
-	"mt.PQInnerData":                          wrap(mt.DecodePQInnerData),
-	"mt.RPCDropAnswer":                        wrap(mt.DecodeRPCDropAnswer),
-	"mt.ServerDHParams":                       wrap(mt.DecodeServerDHParams),
-	"mt.SetClientDHParamsAnswer":              wrap(mt.DecodeSetClientDHParamsAnswer),
-	"e2e.Bool":                                wrap(e2e.DecodeBool),
-	"e2e.DecryptedMessage":                    wrap(e2e.DecodeDecryptedMessage),
-	"e2e.DecryptedMessageAction":              wrap(e2e.DecodeDecryptedMessageAction),
-	"e2e.DecryptedMessageMedia":               wrap(e2e.DecodeDecryptedMessageMedia),
-	"e2e.DocumentAttribute":                   wrap(e2e.DecodeDocumentAttribute),
-	"e2e.FileLocation":                        wrap(e2e.DecodeFileLocation),
-	"e2e.InputStickerSet":                     wrap(e2e.DecodeInputStickerSet),
-	"e2e.MessageEntity":                       wrap(e2e.DecodeMessageEntity),
-	"e2e.PhotoSize":                           wrap(e2e.DecodePhotoSize),
-	"e2e.SendMessageAction":                   wrap(e2e.DecodeSendMessageAction),
-	"tg.AccountChatThemes":                    wrap(tg.DecodeAccountChatThemes),
-	"tg.AccountEmailVerified":                 wrap(tg.DecodeAccountEmailVerified),
-	"tg.AccountEmojiStatuses":                 wrap(tg.DecodeAccountEmojiStatuses),
-	"tg.AccountResetPasswordResult":           wrap(tg.DecodeAccountResetPasswordResult),
-	"tg.AccountSavedMusicIDs":                 wrap(tg.DecodeAccountSavedMusicIDs),
-	"tg.AccountSavedRingtone":                 wrap(tg.DecodeAccountSavedRingtone),
-	"tg.AccountSavedRingtones":                wrap(tg.DecodeAccountSavedRingtones),
-	"tg.AccountThemes":                        wrap(tg.DecodeAccountThemes),
-	"tg.AccountWallPapers":                    wrap(tg.DecodeAccountWallPapers),
-	"tg.AccountWebBrowserSettings":            wrap(tg.DecodeAccountWebBrowserSettings),
-	"tg.AiComposeTone":                        wrap(tg.DecodeAiComposeTone),
-	"tg.AicomposeTones":                       wrap(tg.DecodeAicomposeTones),
-	"tg.AttachMenuBots":                       wrap(tg.DecodeAttachMenuBots),
-	"tg.AttachMenuPeerType":                   wrap(tg.DecodeAttachMenuPeerType),
-	"tg.AuthAuthorization":                    wrap(tg.DecodeAuthAuthorization),
-	"tg.AuthCodeType":                         wrap(tg.DecodeAuthCodeType),
-	"tg.AuthLoginToken":                       wrap(tg.DecodeAuthLoginToken),
-	"tg.AuthSentCode":                         wrap(tg.DecodeAuthSentCode),
-	"tg.AuthSentCodeType":                     wrap(tg.DecodeAuthSentCodeType),
-	"tg.BaseTheme":                            wrap(tg.DecodeBaseTheme),
-	"tg.Bool":                                 wrap(tg.DecodeBool),
-	"tg.BotApp":                               wrap(tg.DecodeBotApp),
-	"tg.BotCommandScope":                      wrap(tg.DecodeBotCommandScope),
-	"tg.BotInlineMessage":                     wrap(tg.DecodeBotInlineMessage),
-	"tg.BotInlineResult":                      wrap(tg.DecodeBotInlineResult),
-	"tg.BotMenuButton":                        wrap(tg.DecodeBotMenuButton),
-	"tg.BusinessAwayMessageSchedule":          wrap(tg.DecodeBusinessAwayMessageSchedule),
-	"tg.ChannelAdminLogEventAction":           wrap(tg.DecodeChannelAdminLogEventAction),
-	"tg.ChannelLocation":                      wrap(tg.DecodeChannelLocation),
-	"tg.ChannelMessagesFilter":                wrap(tg.DecodeChannelMessagesFilter),
-	"tg.ChannelParticipant":                   wrap(tg.DecodeChannelParticipant),
-	"tg.ChannelParticipantsFilter":            wrap(tg.DecodeChannelParticipantsFilter),
-	"tg.ChannelsChannelParticipants":          wrap(tg.DecodeChannelsChannelParticipants),
-	"tg.ChannelsSponsoredMessageReportResult": wrap(tg.DecodeChannelsSponsoredMessageReportResult),
-	"tg.Chat":                                 wrap(tg.DecodeChat),
-	"tg.ChatFull":                             wrap(tg.DecodeChatFull),
-	"tg.ChatInvite":                           wrap(tg.DecodeChatInvite),
-	"tg.ChatParticipant":                      wrap(tg.DecodeChatParticipant),
-	"tg.ChatParticipants":                     wrap(tg.DecodeChatParticipants),
-	"tg.ChatPhoto":                            wrap(tg.DecodeChatPhoto),
-	"tg.ChatReactions":                        wrap(tg.DecodeChatReactions),
-	"tg.ChatTheme":                            wrap(tg.DecodeChatTheme),
-	"tg.ChatlistsChatlistInvite":              wrap(tg.DecodeChatlistsChatlistInvite),
-	"tg.ContactsBlocked":                      wrap(tg.DecodeContactsBlocked),
-	"tg.ContactsContacts":                     wrap(tg.DecodeContactsContacts),
-	"tg.ContactsSponsoredPeers":               wrap(tg.DecodeContactsSponsoredPeers),
-	"tg.ContactsTopPeers":                     wrap(tg.DecodeContactsTopPeers),
-	"tg.Dialog":                               wrap(tg.DecodeDialog),
-	"tg.DialogFilter":                         wrap(tg.DecodeDialogFilter),
-	"tg.DialogPeer":                           wrap(tg.DecodeDialogPeer),
-	"tg.Document":                             wrap(tg.DecodeDocument),
-	"tg.DocumentAttribute":                    wrap(tg.DecodeDocumentAttribute),
-	"tg.DraftMessage":                         wrap(tg.DecodeDraftMessage),
-	"tg.EmailVerification":                    wrap(tg.DecodeEmailVerification),
-	"tg.EmailVerifyPurpose":                   wrap(tg.DecodeEmailVerifyPurpose),
-	"tg.EmojiGroup":                           wrap(tg.DecodeEmojiGroup),
-	"tg.EmojiKeyword":                         wrap(tg.DecodeEmojiKeyword),
-	"tg.EmojiList":                            wrap(tg.DecodeEmojiList),
-	"tg.EmojiStatus":                          wrap(tg.DecodeEmojiStatus),
-	"tg.EncryptedChat":                        wrap(tg.DecodeEncryptedChat),
-	"tg.EncryptedFile":                        wrap(tg.DecodeEncryptedFile),
-	"tg.EncryptedMessage":                     wrap(tg.DecodeEncryptedMessage),
-	"tg.ExportedChatInvite":                   wrap(tg.DecodeExportedChatInvite),
-	"tg.ForumTopic":                           wrap(tg.DecodeForumTopic),
-	"tg.GeoPoint":                             wrap(tg.DecodeGeoPoint),
-	"tg.GroupCall":                            wrap(tg.DecodeGroupCall),
-	"tg.HelpAppConfig":                        wrap(tg.DecodeHelpAppConfig),
-	"tg.HelpAppUpdate":                        wrap(tg.DecodeHelpAppUpdate),
-	"tg.HelpCountriesList":                    wrap(tg.DecodeHelpCountriesList),
-	"tg.HelpDeepLinkInfo":                     wrap(tg.DecodeHelpDeepLinkInfo),
-	"tg.HelpPassportConfig":                   wrap(tg.DecodeHelpPassportConfig),
-	"tg.HelpPeerColorSet":                     wrap(tg.DecodeHelpPeerColorSet),
-	"tg.HelpPeerColors":                       wrap(tg.DecodeHelpPeerColors),
-	"tg.HelpPromoData":                        wrap(tg.DecodeHelpPromoData),
-	"tg.HelpTermsOfServiceUpdate":             wrap(tg.DecodeHelpTermsOfServiceUpdate),
-	"tg.HelpTimezonesList":                    wrap(tg.DecodeHelpTimezonesList),
-	"tg.HelpUserInfo":                         wrap(tg.DecodeHelpUserInfo),
-	"tg.IPPort":                               wrap(tg.DecodeIPPort),
-	"tg.InlineQueryPeerType":                  wrap(tg.DecodeInlineQueryPeerType),
-	"tg.InputAiComposeTone":                   wrap(tg.DecodeInputAiComposeTone),
-	"tg.InputBotApp":                          wrap(tg.DecodeInputBotApp),
-	"tg.InputBotInlineMessage":                wrap(tg.DecodeInputBotInlineMessage),
-	"tg.InputBotInlineMessageID":              wrap(tg.DecodeInputBotInlineMessageID),
-	"tg.InputBotInlineResult":                 wrap(tg.DecodeInputBotInlineResult),
-	"tg.InputChannel":                         wrap(tg.DecodeInputChannel),
-	"tg.InputChatPhoto":                       wrap(tg.DecodeInputChatPhoto),
-	"tg.InputChatTheme":                       wrap(tg.DecodeInputChatTheme),
-	"tg.InputCheckPasswordSRP":                wrap(tg.DecodeInputCheckPasswordSRP),
-	"tg.InputCollectible":                     wrap(tg.DecodeInputCollectible),
-	"tg.InputDialogPeer":                      wrap(tg.DecodeInputDialogPeer),
-	"tg.InputDocument":                        wrap(tg.DecodeInputDocument),
-	"tg.InputEncryptedFile":                   wrap(tg.DecodeInputEncryptedFile),
-	"tg.InputFile":                            wrap(tg.DecodeInputFile),
-	"tg.InputFileLocation":                    wrap(tg.DecodeInputFileLocation),
-	"tg.InputGame":                            wrap(tg.DecodeInputGame),
-	"tg.InputGeoPoint":                        wrap(tg.DecodeInputGeoPoint),
-	"tg.InputGroupCall":                       wrap(tg.DecodeInputGroupCall),
-	"tg.InputInvoice":                         wrap(tg.DecodeInputInvoice),
-	"tg.InputMedia":                           wrap(tg.DecodeInputMedia),
-	"tg.InputMessage":                         wrap(tg.DecodeInputMessage),
-	"tg.InputNotifyPeer":                      wrap(tg.DecodeInputNotifyPeer),
-	"tg.InputPasskeyCredential":               wrap(tg.DecodeInputPasskeyCredential),
-	"tg.InputPasskeyResponse":                 wrap(tg.DecodeInputPasskeyResponse),
-	"tg.InputPaymentCredentials":              wrap(tg.DecodeInputPaymentCredentials),
-	"tg.InputPeer":                            wrap(tg.DecodeInputPeer),
-	"tg.InputPhoto":                           wrap(tg.DecodeInputPhoto),
-	"tg.InputPrivacyKey":                      wrap(tg.DecodeInputPrivacyKey),
-	"tg.InputPrivacyRule":                     wrap(tg.DecodeInputPrivacyRule),
-	"tg.InputQuickReplyShortcut":              wrap(tg.DecodeInputQuickReplyShortcut),
-	"tg.InputReplyTo":                         wrap(tg.DecodeInputReplyTo),
-	"tg.InputRichFile":                        wrap(tg.DecodeInputRichFile),
-	"tg.InputRichMessage":                     wrap(tg.DecodeInputRichMessage),
-	"tg.InputSavedStarGift":                   wrap(tg.DecodeInputSavedStarGift),
-	"tg.InputSecureFile":                      wrap(tg.DecodeInputSecureFile),
-	"tg.InputStarGiftAuction":                 wrap(tg.DecodeInputStarGiftAuction),
-	"tg.InputStickerSet":                      wrap(tg.DecodeInputStickerSet),
-	"tg.InputStickeredMedia":                  wrap(tg.DecodeInputStickeredMedia),
-	"tg.InputStorePaymentPurpose":             wrap(tg.DecodeInputStorePaymentPurpose),
-	"tg.InputTheme":                           wrap(tg.DecodeInputTheme),
-	"tg.InputUser":                            wrap(tg.DecodeInputUser),
-	"tg.InputWallPaper":                       wrap(tg.DecodeInputWallPaper),
-	"tg.InputWebFileLocation":                 wrap(tg.DecodeInputWebFileLocation),
-	"tg.JSONValue":                            wrap(tg.DecodeJSONValue),
-	"tg.JoinChatBotResult":                    wrap(tg.DecodeJoinChatBotResult),
-	"tg.KeyboardButton":                       wrap(tg.DecodeKeyboardButton),
-	"tg.LangPackString":                       wrap(tg.DecodeLangPackString),
-	"tg.MediaArea":                            wrap(tg.DecodeMediaArea),
-	"tg.Message":                              wrap(tg.DecodeMessage),
-	"tg.MessageAction":                        wrap(tg.DecodeMessageAction),
-	"tg.MessageEntity":                        wrap(tg.DecodeMessageEntity),
-	"tg.MessageExtendedMedia":                 wrap(tg.DecodeMessageExtendedMedia),
-	"tg.MessageMedia":                         wrap(tg.DecodeMessageMedia),
-	"tg.MessagePeerVote":                      wrap(tg.DecodeMessagePeerVote),
-	"tg.MessageReplyHeader":                   wrap(tg.DecodeMessageReplyHeader),
-	"tg.MessagesAllStickers":                  wrap(tg.DecodeMessagesAllStickers),
-	"tg.MessagesAvailableEffects":             wrap(tg.DecodeMessagesAvailableEffects),
-	"tg.MessagesAvailableReactions":           wrap(tg.DecodeMessagesAvailableReactions),
-	"tg.MessagesChatInviteJoinResult":         wrap(tg.DecodeMessagesChatInviteJoinResult),
-	"tg.MessagesChats":                        wrap(tg.DecodeMessagesChats),
-	"tg.MessagesDhConfig":                     wrap(tg.DecodeMessagesDhConfig),
-	"tg.MessagesDialogs":                      wrap(tg.DecodeMessagesDialogs),
-	"tg.MessagesEmojiGameInfo":                wrap(tg.DecodeMessagesEmojiGameInfo),
-	"tg.MessagesEmojiGroups":                  wrap(tg.DecodeMessagesEmojiGroups),
-	"tg.MessagesExportedChatInvite":           wrap(tg.DecodeMessagesExportedChatInvite),
-	"tg.MessagesFavedStickers":                wrap(tg.DecodeMessagesFavedStickers),
-	"tg.MessagesFeaturedStickers":             wrap(tg.DecodeMessagesFeaturedStickers),
-	"tg.MessagesFilter":                       wrap(tg.DecodeMessagesFilter),
-	"tg.MessagesFoundStickerSets":             wrap(tg.DecodeMessagesFoundStickerSets),
-	"tg.MessagesFoundStickers":                wrap(tg.DecodeMessagesFoundStickers),
-	"tg.MessagesMessages":                     wrap(tg.DecodeMessagesMessages),
-	"tg.MessagesQuickReplies":                 wrap(tg.DecodeMessagesQuickReplies),
-	"tg.MessagesReactions":                    wrap(tg.DecodeMessagesReactions),
-	"tg.MessagesRecentStickers":               wrap(tg.DecodeMessagesRecentStickers),
-	"tg.MessagesSavedDialogs":                 wrap(tg.DecodeMessagesSavedDialogs),
-	"tg.MessagesSavedGifs":                    wrap(tg.DecodeMessagesSavedGifs),
-	"tg.MessagesSavedReactionTags":            wrap(tg.DecodeMessagesSavedReactionTags),
-	"tg.MessagesSentEncryptedMessage":         wrap(tg.DecodeMessagesSentEncryptedMessage),
-	"tg.MessagesSponsoredMessages":            wrap(tg.DecodeMessagesSponsoredMessages),
-	"tg.MessagesStickerSet":                   wrap(tg.DecodeMessagesStickerSet),
-	"tg.MessagesStickerSetInstallResult":      wrap(tg.DecodeMessagesStickerSetInstallResult),
-	"tg.MessagesStickers":                     wrap(tg.DecodeMessagesStickers),
-	"tg.NotificationSound":                    wrap(tg.DecodeNotificationSound),
-	"tg.NotifyPeer":                           wrap(tg.DecodeNotifyPeer),
-	"tg.PageBlock":                            wrap(tg.DecodePageBlock),
-	"tg.PageListItem":                         wrap(tg.DecodePageListItem),
-	"tg.PageListOrderedItem":                  wrap(tg.DecodePageListOrderedItem),
-	"tg.PaidReactionPrivacy":                  wrap(tg.DecodePaidReactionPrivacy),
-	"tg.PasswordKdfAlgo":                      wrap(tg.DecodePasswordKdfAlgo),
-	"tg.PaymentsCheckCanSendGiftResult":       wrap(tg.DecodePaymentsCheckCanSendGiftResult),
-	"tg.PaymentsGiveawayInfo":                 wrap(tg.DecodePaymentsGiveawayInfo),
-	"tg.PaymentsPaymentForm":                  wrap(tg.DecodePaymentsPaymentForm),
-	"tg.PaymentsPaymentReceipt":               wrap(tg.DecodePaymentsPaymentReceipt),
-	"tg.PaymentsPaymentResult":                wrap(tg.DecodePaymentsPaymentResult),
-	"tg.PaymentsStarGiftActiveAuctions":       wrap(tg.DecodePaymentsStarGiftActiveAuctions),
-	"tg.PaymentsStarGiftCollections":          wrap(tg.DecodePaymentsStarGiftCollections),
-	"tg.PaymentsStarGifts":                    wrap(tg.DecodePaymentsStarGifts),
-	"tg.Peer":                                 wrap(tg.DecodePeer),
-	"tg.PeerColor":                            wrap(tg.DecodePeerColor),
-	"tg.PeerLocated":                          wrap(tg.DecodePeerLocated),
-	"tg.PhoneCall":                            wrap(tg.DecodePhoneCall),
-	"tg.PhoneCallDiscardReason":               wrap(tg.DecodePhoneCallDiscardReason),
-	"tg.PhoneConnection":                      wrap(tg.DecodePhoneConnection),
-	"tg.Photo":                                wrap(tg.DecodePhoto),
-	"tg.PhotoSize":                            wrap(tg.DecodePhotoSize),
-	"tg.PhotosPhotos":                         wrap(tg.DecodePhotosPhotos),
-	"tg.PollAnswer":                           wrap(tg.DecodePollAnswer),
-	"tg.PostInteractionCounters":              wrap(tg.DecodePostInteractionCounters),
-	"tg.PrepaidGiveaway":                      wrap(tg.DecodePrepaidGiveaway),
-	"tg.PrivacyKey":                           wrap(tg.DecodePrivacyKey),
-	"tg.PrivacyRule":                          wrap(tg.DecodePrivacyRule),
-	"tg.ProfileTab":                           wrap(tg.DecodeProfileTab),
-	"tg.PublicForward":                        wrap(tg.DecodePublicForward),
-	"tg.Reaction":                             wrap(tg.DecodeReaction),
-	"tg.ReactionNotificationsFrom":            wrap(tg.DecodeReactionNotificationsFrom),
-	"tg.RecentMeURL":                          wrap(tg.DecodeRecentMeURL),
-	"tg.ReplyMarkup":                          wrap(tg.DecodeReplyMarkup),
-	"tg.ReportReason":                         wrap(tg.DecodeReportReason),
-	"tg.ReportResult":                         wrap(tg.DecodeReportResult),
-	"tg.RequestPeerType":                      wrap(tg.DecodeRequestPeerType),
-	"tg.RequestedPeer":                        wrap(tg.DecodeRequestedPeer),
-	"tg.RequirementToContact":                 wrap(tg.DecodeRequirementToContact),
-	"tg.RichText":                             wrap(tg.DecodeRichText),
-	"tg.SavedDialog":                          wrap(tg.DecodeSavedDialog),
-	"tg.SecureFile":                           wrap(tg.DecodeSecureFile),
-	"tg.SecurePasswordKdfAlgo":                wrap(tg.DecodeSecurePasswordKdfAlgo),
-	"tg.SecurePlainData":                      wrap(tg.DecodeSecurePlainData),
-	"tg.SecureRequiredType":                   wrap(tg.DecodeSecureRequiredType),
-	"tg.SecureValueError":                     wrap(tg.DecodeSecureValueError),
-	"tg.SecureValueType":                      wrap(tg.DecodeSecureValueType),
-	"tg.SendMessageAction":                    wrap(tg.DecodeSendMessageAction),
-	"tg.StarGift":                             wrap(tg.DecodeStarGift),
-	"tg.StarGiftAttribute":                    wrap(tg.DecodeStarGiftAttribute),
-	"tg.StarGiftAttributeID":                  wrap(tg.DecodeStarGiftAttributeID),
-	"tg.StarGiftAttributeRarity":              wrap(tg.DecodeStarGiftAttributeRarity),
-	"tg.StarGiftAuctionRound":                 wrap(tg.DecodeStarGiftAuctionRound),
-	"tg.StarGiftAuctionState":                 wrap(tg.DecodeStarGiftAuctionState),
-	"tg.StarsAmount":                          wrap(tg.DecodeStarsAmount),
-	"tg.StarsTransactionPeer":                 wrap(tg.DecodeStarsTransactionPeer),
-	"tg.StatsGraph":                           wrap(tg.DecodeStatsGraph),
-	"tg.StickerSetCovered":                    wrap(tg.DecodeStickerSetCovered),
-	"tg.StorageFileType":                      wrap(tg.DecodeStorageFileType),
-	"tg.StoriesAlbums":                        wrap(tg.DecodeStoriesAlbums),
-	"tg.StoriesAllStories":                    wrap(tg.DecodeStoriesAllStories),
-	"tg.StoryItem":                            wrap(tg.DecodeStoryItem),
-	"tg.StoryReaction":                        wrap(tg.DecodeStoryReaction),
-	"tg.StoryView":                            wrap(tg.DecodeStoryView),
-	"tg.TopPeerCategory":                      wrap(tg.DecodeTopPeerCategory),
-	"tg.URLAuthResult":                        wrap(tg.DecodeURLAuthResult),
-	"tg.Update":                               wrap(tg.DecodeUpdate),
-	"tg.Updates":                              wrap(tg.DecodeUpdates),
-	"tg.UpdatesChannelDifference":             wrap(tg.DecodeUpdatesChannelDifference),
-	"tg.UpdatesDifference":                    wrap(tg.DecodeUpdatesDifference),
-	"tg.UploadCDNFile":                        wrap(tg.DecodeUploadCDNFile),
-	"tg.UploadFile":                           wrap(tg.DecodeUploadFile),
-	"tg.User":                                 wrap(tg.DecodeUser),
-	"tg.UserProfilePhoto":                     wrap(tg.DecodeUserProfilePhoto),
-	"tg.UserStatus":                           wrap(tg.DecodeUserStatus),
-	"tg.UsersSavedMusic":                      wrap(tg.DecodeUsersSavedMusic),
-	"tg.UsersUsers":                           wrap(tg.DecodeUsersUsers),
-	"tg.VideoSize":                            wrap(tg.DecodeVideoSize),
-	"tg.WallPaper":                            wrap(tg.DecodeWallPaper),
-	"tg.WebDocument":                          wrap(tg.DecodeWebDocument),
-	"tg.WebPage":                              wrap(tg.DecodeWebPage),
-	"tg.WebPageAttribute":                     wrap(tg.DecodeWebPageAttribute),
-}
+garbage
